@@ -327,7 +327,15 @@ func (x *X) skip(why string) {
 	x.inv.SkipWhy = why
 	x.skipping = true
 	x.ev("skip %s", why)
-	x.t.Skip(why)
+	switch len(x.inv.Draws) % 3 { // all three ways of skipping a *rapid.T, chosen by the data
+	case 0:
+		x.t.Skip(why)
+	case 1:
+		x.t.Skipf("%s", why)
+	default:
+		x.t.Logf("%s", why)
+		x.t.SkipNow()
+	}
 }
 
 // ---------------------------------------------------------------------------
